@@ -389,6 +389,8 @@ func RetSourceGuarded(w *World, id, kind, fnName string, idx int, g Gate, what s
 	return out
 }
 
+var mapMutator = regexp.MustCompile(`^(delete|clear|maps\.Copy|maps\.DeleteFunc|\(apim/util/sets\.Set\[.*\]\)\.(Insert|Delete|Clear|PopAny))$`)
+
 // StructFieldStores lists, over the given functions, the stores (and map updates / deletes through a field) whose
 // address chain passes through a field of one of the named struct types (short names).
 func (w *World) StructFieldStores(fns []*ssa.Function, typs map[string]bool) []ssa.Instruction {
@@ -410,6 +412,11 @@ func (w *World) StructFieldStores(fns []*ssa.Function, typs map[string]bool) []s
 				v = x.X
 			case *ssa.Lookup:
 				v = x.X
+			case *ssa.Extract:
+				if _, ok := x.Tuple.(*ssa.Lookup); !ok {
+					return false
+				}
+				v = x.Tuple
 			case *ssa.Field:
 				if typs[structName(x.X.Type())] {
 					return true
@@ -438,6 +445,20 @@ func (w *World) StructFieldStores(fns []*ssa.Function, typs map[string]bool) []s
 				case *ssa.MapUpdate:
 					if hits(x.Map) {
 						if root, _ := w.AddrRoot(x.Map); root != nil {
+							if _, fresh := root.(*ssa.Alloc); fresh {
+								continue
+							}
+						}
+						out = append(out, in)
+					}
+				case ssa.CallInstruction:
+					// in-place mutators of a map/set held in such a field
+					c := x.Common()
+					if len(c.Args) == 0 || !mapMutator.MatchString(w.CalleeName(c)) {
+						continue
+					}
+					if hits(c.Args[0]) {
+						if root, _ := w.AddrRoot(c.Args[0]); root != nil {
 							if _, fresh := root.(*ssa.Alloc); fresh {
 								continue
 							}
@@ -512,4 +533,31 @@ func RetLeavesGuarded(w *World, id, kind, fnName string, idx int, exceptRe strin
 		out = append(out, one(id, kind, construct, Discharged, n, w.Pos(fn.Pos()), what))
 	}
 	return out
+}
+
+// ConstVal returns the exact value (as Go syntax) of the package-level constant name declared in the karpenter package
+// whose import path ends in pkgSuffix.
+func (w *World) ConstVal(pkgSuffix, name string) (string, bool) {
+	for path, p := range w.PkgByPath {
+		if !strings.HasSuffix(path, pkgSuffix) || p.Types == nil {
+			continue
+		}
+		if c, ok := p.Types.Scope().Lookup(name).(*types.Const); ok {
+			return c.Val().ExactString(), true
+		}
+	}
+	return "", false
+}
+
+// ConstIs is a REG row: constant pkgSuffix.name has value want.
+func ConstIs(w *World, id, pkgSuffix, name, want, what string) []Result {
+	construct := "REG:const " + pkgSuffix + "." + name
+	got, ok := w.ConstVal(pkgSuffix, name)
+	if !ok {
+		return []Result{Anchor(id, "REG", "const "+pkgSuffix+"."+name)}
+	}
+	if got != want {
+		return []Result{Bad(id, "REG", construct, "", fmt.Sprintf("%s: constant is %s, the table's literals assume %s", what, got, want))}
+	}
+	return []Result{OK(id, "REG", construct, 1, what)}
 }
